@@ -48,7 +48,7 @@ REQUIRED = ["constructions", "points_multiset_checked", "mst_length_checked", "l
             "limit_root_not_exempt", "root_wants_more_than_k", "parents_replayed", "balanced_replayed",
             "float32_clouds", "integer_clouds", "clouds_with_coincident_points", "far_clouds", "soma_given", "soma_first_point", "class_PointsToMST",
             "class_PointsToCuntzMST", "tap_call", "transform_instances_reused",
-            "rejected_calls_before_construction", "names_given_at_call_time"]
+            "rejected_calls_before_construction", "names_given_at_call_time", "size_sweep_cases"]
 FLOOR = {"quick": 650, "thorough": 52000}
 SHARDS = {"quick": 8, "thorough": 16}
 TIMEOUT = {"quick": 300, "thorough": 3000}
@@ -336,6 +336,21 @@ def run(ctx):
                     "sort": bool(rng.random() < 0.5)}
             ctx.case(case, nontrivial=n >= 3, klass=f"{case['cls']}/{case['layout']}")
             execute(ctx, case)
+        # cloud sizes random cases rarely have (past 255 / 295 / 511 points), far from the origin
+        # in single precision -- where any shortcut in the distance computation shows
+        sizes = [255, 256, 257, 295, 296, 297, 400, 511, 512, 513] + ([] if ctx.quick else
+                                                                      [1000, 1024, 1025, 2000])
+        for j, n_ in enumerate(sizes):
+            if j % ctx.nshards != ctx.shard:
+                continue
+            for cls_, bf_ in (("PointsToMST", 0.0), ("PointsToCuntzMST", 0.4)):
+                case = {"seed": 5000 + 17 * j + ctx.seed, "n": n_, "layout": "uniform",
+                        "far": True, "dtype": "float32", "dups": False, "soma": bool(j % 2),
+                        "cls": cls_, "bf": bf_, "k": -1 if cls_ == "PointsToMST" else 3,
+                        "exclude_soma": True, "sort": bool(j % 2)}
+                ctx.case(case, klass="size-sweep")
+                ctx.count("size_sweep_cases")
+                execute(ctx, case)
     ctx.count("tap_call", tap.counts["call"])
     for fn, mech, detail in contracts.REC.problems:
         ctx.violation("c03-contract:" + mech, f"{fn}: {detail}",
